@@ -211,8 +211,9 @@ BODIES = {
     "minus-inside": ["a = b - c;", "d = -e;"],
     "trailing-plus": ["x = a +", "b;"],
     "tab": ["int\tx = 1;"],
+    "empty": [],  # a block the user deliberately leaves empty still replaces the default
 }
-QUICK_BODIES = ["one", "indented", "blank-middle", "braces", "long", "trailing-plus", "tab"]
+QUICK_BODIES = ["one", "indented", "blank-middle", "braces", "long", "trailing-plus", "tab", "empty"]
 EXT = {"c": ".c", "f": ".f", "py": ".py", "lua": ".lua"}
 COMMENT = {"c": "//", "f": "!", "py": "//", "lua": "//"}
 
@@ -231,8 +232,8 @@ def supply(way, lang, name, body, ydict):
     argv = []
     if way in ("cmdline-file", "yaml-file"):
         fn = "user_splicer" + EXT[lang]
-        files[fn] = "text outside is ignored\n%s splicer begin %s\n%s\n%s splicer end %s\ntrailing text\n" % (
-            COMMENT[lang], name, "\n".join(body), COMMENT[lang], name)
+        files[fn] = "text outside is ignored\n%s splicer begin %s\n%s%s splicer end %s\ntrailing text\n" % (
+            COMMENT[lang], name, "".join(ln + "\n" for ln in body), COMMENT[lang], name)
         if way == "cmdline-file":
             argv = [fn]
         else:
